@@ -7328,6 +7328,37 @@ func ruleURIPathWins(w *World, r *Report) {
 		}
 	}
 	r.ok("URI-PATH-WINS", key, w.PosOf(sets[0]), "the path is written last")
+	// envelope clause: which endpoint a request is for (an envelope, or an operation) is decided from the same thing:
+	// every DWIMURI call in GetHTTPRequest is given the URL's Path, never the whole request target (URL.String(), which is
+	// an absolute URL for a request that came through a proxy: `POST http://host/api/json` was an unknown URI)
+	dwim := w.TryFunc("service", "DWIMURI")
+	nd := 0
+	var whole ssa.Instruction
+	allInstrs(fn, func(in ssa.Instruction) {
+		c := callOf(in)
+		if c == nil || dwim == nil || c.StaticCallee() != dwim || len(c.Args) < 2 {
+			return
+		}
+		nd++
+		if dependsOn(c.Args[1], func(v ssa.Value) bool {
+			cc, ok := v.(*ssa.Call)
+			if !ok || cc.Common().StaticCallee() == nil {
+				return false
+			}
+			f := cc.Common().StaticCallee()
+			return f.Pkg != nil && f.Pkg.Pkg.Path() == "net/url" && (f.Name() == "String" || f.Name() == "RequestURI")
+		}) {
+			whole = in
+		}
+	})
+	switch {
+	case nd == 0:
+		r.exempt("URI-PATH-WINS", key+" envelope", w.Pos(fn.Pos()), "GetHTTPRequest does not call DWIMURI: shape not recognised, not decided")
+	case whole != nil:
+		r.violation("URI-PATH-WINS", key+" envelope", w.PosOf(whole), "the endpoint is recognised from the whole request target, the operation from the path: an absolute-form target (`POST http://host/api/json`) is an envelope by its path and an unknown URI by its target")
+	default:
+		r.ok("URI-PATH-WINS", key+" envelope", w.Pos(fn.Pos()), "the endpoint is recognised from the path")
+	}
 }
 
 // CAST-ALL-INPUTS (C05): everything the matcher is handed has been cast.
